@@ -88,6 +88,18 @@ Pt SceneGen::freePoint() {
             if (ok) return p;
         }
     }
+    if (edgeLines > 0 && r.chance(edgeLines)) {
+        // an end point on the LINE of a side of some shape (same x as its left/right side or same y as its top/bottom side),
+        // anywhere in free space: the coincidences of scan-line coordinates that random end points never produce
+        std::vector<int> ids; for (auto &kv : shapes) if (kv.second.alive) ids.push_back(kv.first);
+        for (int t = 0; t < 40 && !ids.empty(); t++) {
+            const RectB &o = shapes[r.pick(ids)].box;
+            Pt p{(double)r.below(106) * 5 - 15, (double)r.below(106) * 5 - 15};
+            int side = (int)r.below(4);
+            if (side == 0) p.x = o.x; else if (side == 1) p.x = o.x + o.w; else if (side == 2) p.y = o.y; else p.y = o.y + o.h;
+            if (pointFree(p, endMargin)) return p;
+        }
+    }
     for (int t = 0; t < 200; t++) {
         Pt p{(double)r.below(106) * 5 - 15, (double)r.below(106) * 5 - 15};
         if (pointFree(p, endMargin)) return p;
@@ -239,7 +251,7 @@ Json genRouterSession(Rng &r, const RouterGenCfg &g) {
 
     SceneGen sg(r);
     sg.gap = g.gap; sg.endMargin = g.endMargin; sg.polygons = g.polygons; sg.touching = g.touching; sg.dirRestrict = g.dirRestrict; sg.checkpoints = g.checkpoints;
-    sg.pinHook = g.pinHook; sg.endHook = g.endHook; sg.allowDeleteAttached = g.allowDeleteAttached; sg.allowCover = g.allowCover; sg.edgePoints = g.edgePoints;
+    sg.pinHook = g.pinHook; sg.endHook = g.endHook; sg.allowDeleteAttached = g.allowDeleteAttached; sg.allowCover = g.allowCover; sg.edgePoints = g.edgePoints; sg.edgeLines = g.edgeLines;
     Json ops = Json::arr();
     int ns = r.range(g.minShapes, g.maxShapes), nc = r.range(g.minConns, g.maxConns);
     for (int i = 0; i < ns; i++) sg.addShape(ops);
